@@ -4,7 +4,7 @@ import vlib
 from props import c02
 
 PROP = "C03"
-POINTS = ["before_output", "mid_line", "after_line", "idle", "in_unary", "in_stream", "broker_after_id", "during_stdio"]
+POINTS = ["before_output", "mid_line", "after_line", "idle", "in_unary", "in_stream", "in_accept", "broker_after_id", "during_stdio"]
 PROTOS = ["netrpc", "grpc", "grpcmux"]
 
 
@@ -15,6 +15,8 @@ def make_cases(tier, rng):
     for pt in POINTS:
         for pr in PROTOS:
             if pt == "in_stream" and pr == "netrpc":
+                continue
+            if pt == "in_accept" and pr != "netrpc":
                 continue
             for how in hows:
                 for _ in range(reps):
